@@ -234,6 +234,29 @@ func TwoThreadsOneQueueNoop(o Opts) Scenario {
 	}}
 }
 
+// ThreeDrainers: three application threads wait for ONE queue that holds three no-op commands (enqueued before
+// they start). Several kicks are in flight while the engine goroutine is inside an event: runAsync may be waiting
+// in Engine.Pause for the event to end while another drainer is still blocked on its kick with notifications
+// already pending for it.
+func ThreeDrainers(o Opts) Scenario {
+	return Scenario{Name: "3threads-drain-one-queue-noop" + suffix(o), Opts: o, Threads: 3, Main: func(rt RT, o Opts) {
+		w := NewWorld(rt, o)
+		d := w.Driver
+		ctx := d.Init()
+		q := d.CreateCommandQueue(ctx)
+		for i := 0; i < 3; i++ {
+			d.Enqueue(q, &driver.NoopCommand{ID: fmt.Sprintf("n%d", i)})
+		}
+		for i := 0; i < 3; i++ {
+			name := fmt.Sprintf("app%d", i)
+			rt.Go(name, func() { w.DrainShared(name, q) })
+		}
+		rt.Wait()
+		rt.Quiesce()
+		rt.Outcome(fmt.Sprintf("queue-left=%d", verifNumCommands(q)))
+	}}
+}
+
 // TwoThreads: two application threads, own context each (shared=false) or one
 // shared context (shared=true); each copies its own pattern in and out.
 func TwoThreads(shared bool, o Opts) Scenario {
